@@ -120,7 +120,7 @@ pub fn check_stream(ls: &LangSet, code: &str, toks: &[IdTok], t: f64) -> (usize,
 
 pub fn run(ctx: &Ctx) -> Outcome {
     let n_streams = ctx.n(700_000, 12_000_000);
-    let rep = run_sharded(ctx, |w, nw, rep| {
+    let mut rep = run_sharded(ctx, |w, nw, rep| {
         let ls = LangSet::new();
         let mut rng = Rng::derive(ctx.seed, "C06", w as u64);
         for i in 0..(n_streams / nw as u64) {
@@ -155,6 +155,9 @@ pub fn run(ctx: &Ctx) -> Outcome {
             }
         }
     });
+    if !ctx.quick() {
+        super::legs::fuzz_leg(ctx, &mut rep, 45);
+    }
     let rule = "cases = grammar-noise token streams (number words 41%, ordinal forms 8%, conjunction 6%, separator 5%, linking 8%, fillers 16%, punctuation 12%, zero 4%, 12% of number slots replaced by a complete spelled number), two thirds of them with whitespace/hyphen tokens, random case and random separation / not-a-number hints; each stream scanned at 9 thresholds (incl. inf, NaN, negative); non-trivial = stream for which at least one occurrence was reported and checked (span, word boundaries, numeral grammar, value = reading, ordinal flag <=> marker)";
     finish(ctx, rep, rule, &["ordinal marker alphabets per language are taken from the property statement and the library documentation (en st/nd/rd/th(s), fr er/ère/ème(s), es/pt º ª ᵒˢ ᵃˢ (.ᵉʳ), it º ª, de '.', nl e)"], vec![])
 }
